@@ -4,7 +4,7 @@
    The model is of the REPAIRED code (fix: commits listed in known_findings.json); definitions
    with an `orig` flag keep the unchanged behaviour for the …_refuted witnesses.
    ext = IPv6HopByHop / IPv6Destination; ip6 = IPv6. *)
-From GP Require Import Base N6Lib Lip6Model Lip6Proofs Lip6Rt Lip6Rt2.
+From GP Require Import Base N6Lib Lip6Model Lip6Proofs Lip6Rt Lip6Rt2 Lip6Rt3 Lip6Rt4 Lip6Idem Lip6xModel Lip6xProofs.
 Open Scope Z_scope.
 
 (* ------------------------------------------------------------------ C19 *)
@@ -103,6 +103,18 @@ Proof.
 Qed.
 Print Assumptions C07_ip6_junk_free.
 
+(* a second SerializeTo of the layer exactly as the first call left it (FixLengths has rewritten the
+   length, the next header, the options' lengths, the jumbo option) returns the same bytes or error
+   and leaves the same layer: for every layer value of the Go types, every payload (jumbograms
+   included), every option set, whatever the two buffers held *)
+Theorem C07_ip6_idempotent :
+  (forall l payload fx cs j1 j2, ip6_wf l ->
+     ip6_serialize (snd (ip6_serialize l payload fx cs j1)) payload fx cs j2 = ip6_serialize l payload fx cs j1) /\
+  (forall l payload fx cs j1 j2, ext_wf l ->
+     ext_serialize (snd (ext_serialize l payload fx cs j1)) payload fx cs j2 = ext_serialize l payload fx cs j1).
+Proof. split; [exact ip6_serialize_idem|exact ext_serialize_idem]. Qed.
+Print Assumptions C07_ip6_idempotent.
+
 Example C07_ip6_nonvacuous :
   ext_wf (mkExt 59 0 0 [mkTlv 5 9 0 [1] 0 0; mkTlv 7 0 0 [1; 2; 3; 4] 8 2] [] []) /\
   fst (ext_serialize (mkExt 59 0 0 [mkTlv 5 9 0 [1] 0 0; mkTlv 7 0 0 [1; 2; 3; 4] 8 2] [] []) [9] true true (repeat 170 40))
@@ -147,10 +159,9 @@ Proof. reflexivity. Qed.
 
 (* IPv6: the full statement (every in-range layer value with or without hop-by-hop header, every
    payload incl. jumbograms) is kept as a Definition and is NOT proved as such.  Proved below
-   (…_partial): the fixed header alone — no hop-by-hop header, payload of 1..65535 octets.  The
-   hop-by-hop and jumbogram paths of IPv6.SerializeTo/DecodeFromBytes are covered by the
-   extension-header theorems above plus the rt/nrt correspondence cases (tested, not proved end
-   to end).  Three clauses of the full statement are false for the repaired code and are recorded
+   (…_partial): the fixed header alone (payload of 1..65535 octets) and the hop-by-hop path without
+   jumbogram, and the jumbogram path when FixLengths creates the hop-by-hop header.  Left to the
+   rt/nrt correspondence cases (tested only): a jumbogram whose layer already has a hop-by-hop header.  Three clauses of the full statement are false for the repaired code and are recorded
    as known findings (Length 0 for an empty payload is rejected; a jumbogram's Payload includes
    the hop-by-hop header; hop-by-hop header + payload of 65528..65535 octets is not serializable). *)
 Definition C06_ip6_roundtrip_statement : Prop :=
@@ -168,6 +179,47 @@ Theorem C06_ip6_roundtrip_partial : forall l payload junk, ip6_okb l = true -> p
     p_length l2 = n6_len payload.
 Proof. exact ip6_roundtrip_nohbh. Qed.
 Print Assumptions C06_ip6_roundtrip_partial.
+
+(* ... and with a hop-by-hop header (no jumbogram): every in-range layer whose hop-by-hop options
+   contain no jumbo option, every payload such that header + payload fit 65535 octets: decoding the
+   written bytes succeeds without truncation flag, Length is header + payload, the payload comes back
+   (on the IPv6 layer and on the attached hop-by-hop layer) and all fields agree with the layer
+   as FixLengths left it, the hop-by-hop options up to padding *)
+Theorem C06_ip6_roundtrip_hbh_partial : forall l h payload junk, ip6_okb l = true -> p_hbh l = Some h ->
+  no_jumbo (e_opts h) -> bytes_ok payload -> ext_size h + n6_len payload <= 65535 ->
+  exists bytes l2 h2,
+    ip6_roundtrip l payload junk = (Ok bytes, (l2, Ok tt, false)) /\
+    p_payload l2 = payload /\ p_hbh l2 = Some h2 /\ e_payload h2 = payload /\
+    p_length l2 = ext_size h + n6_len payload /\
+    ip6_fields l2 = ip6_fields (snd (ip6_serialize l payload true true junk)).
+Proof. exact ip6_roundtrip_hbh. Qed.
+Print Assumptions C06_ip6_roundtrip_hbh_partial.
+
+Example C06_ip6_hbh_nonvacuous :
+  ip6_okb (mkIp6 6 0 0 0 0 64 (repeat 254 16) (repeat 1 16)
+            (Some (mkExt 17 0 0 [mkTlv 5 0 0 [1; 2] 0 0; mkTlv 7 0 0 [1; 2; 3; 4] 4 2] [] [])) [] []) = true /\
+  ext_size (mkExt 17 0 0 [mkTlv 5 0 0 [1; 2] 0 0; mkTlv 7 0 0 [1; 2; 3; 4] 4 2] [] []) = 16.
+Proof. split; reflexivity. Qed.
+
+(* ... and the jumbogram path for a layer without hop-by-hop header (FixLengths creates the header
+   with the jumbo option): payload of 65536 .. 2^32-9 octets.  Decoding succeeds without truncation
+   flag, Length is 0, the next header moved into the created hop-by-hop header, whose only option is
+   the jumbo option carrying payload + 8, and all fields agree with the layer as FixLengths left it.
+   The payload comes back on the attached hop-by-hop layer; IPv6.Payload itself is the hop-by-hop
+   header followed by the payload — the known finding ip6-jumbo-payload-includes-hbh, stated here
+   exactly.  (A jumbogram whose layer already carries a hop-by-hop header is tested only.) *)
+Theorem C06_ip6_roundtrip_jumbo_partial : forall l payload junk, ip6_okb l = true -> p_hbh l = None -> bytes_ok payload ->
+  65535 < n6_len payload < 4294967296 - 8 ->
+  exists bytes l2 h2 jl,
+    ip6_roundtrip l payload junk = (Ok bytes, (l2, Ok tt, false)) /\
+    jl = be_bytes 4 (n6_len payload + 8) /\
+    p_payload l2 = [p_next l; 0; JUMBO; 4] ++ jl ++ payload /\
+    p_hbh l2 = Some h2 /\ e_payload h2 = payload /\ e_next h2 = p_next l /\
+    tlv_nonpad (e_opts h2) = [(JUMBO, jl)] /\
+    p_length l2 = 0 /\ p_next l2 = 0 /\
+    ip6_fields l2 = ip6_fields (snd (ip6_serialize l payload true true junk)).
+Proof. exact ip6_roundtrip_jumbo. Qed.
+Print Assumptions C06_ip6_roundtrip_jumbo_partial.
 
 Example C06_ip6_partial_nonvacuous :
   ip6_okb (mkIp6 6 184 703710 0 17 64 (repeat 254 16) (repeat 1 16) None [] []) = true.
@@ -210,3 +262,64 @@ Qed.
 Example C01_ip6_nonvacuous : ip6_flow_panics ip6_fresh = false /\
   ip6_flow_panics (mkIp6 6 0 0 0 59 64 (repeat 1 17) [] None [] []) = true.
 Proof. split; reflexivity. Qed.
+
+(* ================================================================== IPv6Fragment, IPv6Routing *)
+(* Both are produced by decode functions into a fresh layer object (no DecodeFromBytes): C05 does
+   not apply.  Their renderers are the reflective ones (total). *)
+
+(* C19: the decode functions never panic *)
+Theorem C19_ip6x_no_panic :
+  (forall data, is_panic (fst (frag_decode data)) = false) /\
+  (forall data, bytes_ok data -> is_panic (fst (rtg_decode data)) = false).
+Proof. split; [exact frag_decode_no_panic|exact rtg_decode_no_panic]. Qed.
+Print Assumptions C19_ip6x_no_panic.
+
+(* C07: SerializeTo never panics and writes every octet it requested, for every layer value *)
+Theorem C07_ip6x_total_junk_free :
+  (forall f payload fx cs j1 j2, is_panic (fst (frag_serialize f payload fx cs j1)) = false /\
+     frag_serialize f payload fx cs j1 = frag_serialize f payload fx cs j2) /\
+  (forall r payload fx cs j1 j2, is_panic (fst (rtg_serialize r payload fx cs j1)) = false /\
+     rtg_serialize r payload fx cs j1 = rtg_serialize r payload fx cs j2).
+Proof. split; intros; rewrite ?frag_serialize_closed, ?rtg_serialize_closed; split; reflexivity. Qed.
+Print Assumptions C07_ip6x_total_junk_free.
+
+(* the unchanged IPv6Routing.SerializeTo left the reserved octets unwritten when Reserved is nil *)
+Theorem C07_ip6x_rtg_junk_orig_refuted : exists r j1 j2, rtg_serialize_orig r [] j1 <> rtg_serialize_orig r [] j2.
+Proof. exists (mkRtg 17 0 0 0 1 [] [] [] []), [], (repeat 170 8). vm_compute. discriminate. Qed.
+
+(* C06: every in-range value comes back from its serialized form, with the payload; the layer is not
+   modified by SerializeTo, so re-serializing the decoded value gives the same bytes *)
+Theorem C06_ip6x_roundtrip :
+  (forall f payload junk, frag_okb f = true ->
+     exists bytes, frag_serialize f payload true true junk = (Ok bytes, f) /\
+       frag_decode bytes = (Ok (mkFrag (f_next f) (f_res1 f) (f_offset f) (f_res2 f) (f_more f) (f_ident f) (firstn 8 bytes) payload), false) /\
+       forall junk', fst (frag_serialize (mkFrag (f_next f) (f_res1 f) (f_offset f) (f_res2 f) (f_more f) (f_ident f) (firstn 8 bytes) payload)
+                            payload true true junk') = Ok bytes) /\
+  (forall r payload junk, rtg_okb r = true ->
+     exists bytes r2, rtg_serialize r payload true true junk = (Ok bytes, r) /\
+       rtg_decode bytes = (Ok r2, false) /\
+       r_next r2 = r_next r /\ r_type r2 = r_type r /\ r_segleft r2 = r_segleft r /\ r_reserved r2 = r_reserved r /\
+       r_ips r2 = r_ips r /\ r_payload r2 = payload /\
+       forall junk', fst (rtg_serialize r2 payload true true junk') = Ok bytes).
+Proof.
+  split.
+  - intros f payload junk Hok. rewrite frag_serialize_closed. eexists. split; [reflexivity|].
+    rewrite (frag_roundtrip f payload Hok).
+    assert (H8 : firstn 8 (frag_bytes f ++ payload) = frag_bytes f).
+    { rewrite <- (frag_bytes_len f), firstn_app, Nat.sub_diag, firstn_all. cbn [firstn]. apply app_nil_r. }
+    rewrite H8. split; [reflexivity|]. intros junk'. rewrite frag_serialize_closed. reflexivity.
+  - intros r payload junk Hok. rewrite rtg_serialize_closed. eexists. eexists. split; [reflexivity|].
+    rewrite (rtg_roundtrip r payload Hok). split; [reflexivity|]. cbn [r_next r_type r_segleft r_reserved r_ips r_payload].
+    assert (Ht : r_type r = 0).
+    { unfold rtg_okb in Hok. repeat (apply andb_prop in Hok as [Hok ?]). lia. }
+    repeat split; try reflexivity; try (symmetry; exact Ht).
+    intros junk'. rewrite rtg_serialize_closed. cbn [fst]. f_equal. f_equal. unfold rtg_segs. cbn [r_next r_type r_segleft r_reserved r_ips]. rewrite Ht. reflexivity.
+Qed.
+Print Assumptions C06_ip6x_roundtrip.
+
+Example C06_ip6x_nonvacuous :
+  frag_okb (mkFrag 6 0 185 0 true 305419896 [] []) = true /\
+  rtg_okb (mkRtg 6 0 0 0 1 [0; 0; 0; 0] [repeat 1 16; repeat 2 16] [] []) = true /\
+  fst (rtg_serialize (mkRtg 6 0 0 0 1 [] [[10; 0; 0; 1]; [1; 2; 3]] [] []) [9] true true (repeat 170 64))
+  = Ok ([6; 4; 0; 1; 0; 0; 0; 0] ++ [0; 0; 0; 0; 0; 0; 0; 0; 0; 0; 255; 255; 10; 0; 0; 1] ++ repeat 0 16 ++ [9]).
+Proof. repeat split. Qed.
